@@ -40,13 +40,13 @@ fn sdi(data: &[u8]) -> Vec<u8> {
 
 /// the slow-path letters that may be packed two to a frame (BFS only): the ten slow-path letters of EVENTS and a
 /// Set Error Info carrying a non-zero code
-pub const INNER: [usize; 13] = [0, 1, 2, 3, 4, 5, 6, 7, 8, 9, 12, 13, 14];
+pub const INNER: [usize; 14] = [0, 1, 2, 3, 4, 5, 6, 7, 8, 9, 12, 13, 14, 15];
 
 /// first event id of the packed frames (letters 0..SINGLE-1 are single PDUs)
-pub const SINGLE: usize = 15;
+pub const SINGLE: usize = 16;
 
 /// number of events explored per state by the BFS: the 12 letters, letter 12 (set-error-info with a non-zero code),
-/// letter 13 (deactivate-all naming another share id), letter 14 (a font list sent by the server) and every ordered pair of INNER letters packed into ONE frame
+/// letter 13 (deactivate-all naming another share id), letter 14 (a font list sent by the server), letter 15 (a font map whose mapFlags are 0) and every ordered pair of INNER letters packed into ONE frame
 pub fn n_bfs_events() -> usize {
     SINGLE + INNER.len() * INNER.len()
 }
@@ -67,6 +67,7 @@ pub fn event_name(ev: usize) -> String {
         12 => "set-error-info(non-zero)".to_string(),
         13 => "deactivate-all(naming another share id)".to_string(),
         14 => "font-list(a client PDU, same layout as the font map, sent by the server)".to_string(),
+        15 => "font-map(mapFlags 0)".to_string(),
         _ => {
             let d = decompose(ev);
             format!("one frame [{} + {}]", event_name(d[0]), event_name(d[1]))
@@ -88,6 +89,7 @@ fn event_inner(ev: usize, sid: u32) -> Vec<u8> {
         9 => share::deactivate_all(sid, 1002),
         13 => share::deactivate_all(sid ^ 0x0001_0001, 1002),
         14 => share::font_list_from_server(sid, 1002),
+        15 => share::font_map_flags(sid, 1002, 0),
         _ => share::set_error_info(sid, 1002, 5),
     }
 }
@@ -207,20 +209,26 @@ pub struct Live {
 }
 
 pub fn fresh() -> Result<Live, String> {
+    fresh_with(&ClientCfg::default())
+}
+
+/// the same with another client configuration (screen size, name, layout: what the client writes depends on them)
+pub fn fresh_with(cfg: &ClientCfg) -> Result<Live, String> {
     let p = ServerParams { manual: true, user_id: USER_ID, ..Default::default() };
-    let c = raw_connect(&ClientCfg::default(), p, vec![]);
+    let c = raw_connect(cfg, p, vec![]);
     if let Some((st, e)) = c.error {
         return Err(format!("honest connect failed at {}: {}", st, e));
     }
     Ok(Live { client: c.client.unwrap(), sh: c.sh, ref_state: 0, ref_share: 0, window_opened: 0 })
 }
 
-/// the three kinds of input a user produces: a click, a pointer move, a key
+/// the kinds of input a user produces: a click, a pointer move, a key press, a key release
 fn probe_event(k: usize) -> RdpEvent {
     match k {
         0 => RdpEvent::Pointer(PointerEvent { x: 3, y: 4, button: PointerButton::Left, down: true }),
         1 => RdpEvent::Pointer(PointerEvent { x: 5, y: 6, button: PointerButton::None, down: false }),
-        _ => RdpEvent::Key(rdp::core::event::KeyboardEvent { code: 0x1E, down: true }),
+        2 => RdpEvent::Key(rdp::core::event::KeyboardEvent { code: 0x1E, down: true }),
+        _ => RdpEvent::Key(rdp::core::event::KeyboardEvent { code: 0x1E, down: false }),
     }
 }
 
@@ -267,6 +275,8 @@ pub fn step(l: &mut Live, ev: usize) -> Result<Key, (String, String)> {
             13 => 9,
             // a font list is not the font map: like any data PDU the state does not expect
             14 => 8,
+            // a font map is a font map whatever its mapFlags
+            15 => 6,
             _ => e,
         };
         permitted(st, e).into_iter().map(|s2| (s2, sh, vec![])).collect()
@@ -318,7 +328,7 @@ pub fn step(l: &mut Live, ev: usize) -> Result<Key, (String, String)> {
         l.window_opened += 1;
     }
     // (c)/(d) input probe with both write flavours
-    for (lenient, pk) in [(false, 0usize), (true, 0), (false, 1), (true, 1), (false, 2), (true, 2)] {
+    for (lenient, pk) in [(false, 0usize), (true, 0), (false, 1), (true, 1), (false, 2), (true, 2), (false, 3), (true, 3)] {
         let b0 = l.sh.borrow().from_client.len();
         let wr = if lenient { l.client.try_write(probe_event(pk)) } else { l.client.write(probe_event(pk)) };
         let bytes = l.sh.borrow().from_client[b0..].to_vec();
@@ -567,7 +577,7 @@ impl Prop for C12Histories {
         json!({"idx": idx, "history": h.iter().map(|e| EVENTS[*e as usize]).collect::<Vec<_>>()})
     }
     fn rule(&self) -> String {
-        "every history of server PDUs of length <= depth over the 12-letter alphabet, replayed on a fresh real client with three input attempts (a click, a pointer move, a key; each through write and try_write) after every step, from three starting points: the fresh client (depth 5, 7 in thorough), a client that completed an activation (depth 4 / 5), and a client that completed an activation, was deactivated and completed a second activation with another share id (depth 3 / 5); and clients that went through 3, 8, 16, 33, 40 or 70 activation / deactivation cycles (depth 1; 2 after 40 cycles); the prefixes are executed and checked like any other step; non-trivial: histories in which the input window opens at least once".into()
+        "every history of server PDUs of length <= depth over the 12-letter alphabet, replayed on a fresh real client with four input attempts (a click, a pointer move, a key press, a key release; each through write and try_write) after every step, from three starting points: the fresh client (depth 5, 7 in thorough), a client that completed an activation (depth 4 / 5), and a client that completed an activation, was deactivated and completed a second activation with another share id (depth 3 / 5); and clients that went through 3, 8, 16, 33, 40 or 70 activation / deactivation cycles (depth 1; 2 after 40 cycles); the prefixes are executed and checked like any other step; non-trivial: histories in which the input window opens at least once".into()
     }
     fn assumptions(&self) -> Vec<String> {
         vec![]
